@@ -33,24 +33,116 @@ const maxDepth = 40
 // a gate written in the caller's terms is recognised inside a helper.
 var substStack []map[*ssa.Parameter]string
 
+// substVals: the argument values behind substStack (same frames).
+var substVals []map[*ssa.Parameter]ssa.Value
+
 // PushSubst renders the arguments of call in the current context and makes
 // callee's parameters stand for them until PopSubst.  It returns a signature
 // of the substitution (for memo keys).
 func PushSubst(callee *ssa.Function, call *ssa.CallCommon) string {
 	m := map[*ssa.Parameter]string{}
+	mv := map[*ssa.Parameter]ssa.Value{}
 	var sig []string
 	if !call.IsInvoke() && len(call.Args) == len(callee.Params) {
 		for i, p := range callee.Params {
 			t := Of(call.Args[i])
 			m[p] = t
+			mv[p] = call.Args[i]
 			sig = append(sig, t)
 		}
 	}
 	substStack = append(substStack, m)
+	substVals = append(substVals, mv)
 	return strings.Join(sig, ";")
 }
 
-func PopSubst() { substStack = substStack[:len(substStack)-1] }
+func PopSubst() {
+	substStack = substStack[:len(substStack)-1]
+	substVals = substVals[:len(substVals)-1]
+}
+
+// forwardField: base.field where base is (a copy of) a local struct literal
+// of a type the rule tables do not know (a small carrier type introduced by a
+// refactoring): the value the literal stored in that field.  The literal must
+// not escape its function (so nothing else can write the field) and the field
+// must be stored exactly once.  Under a substitution the base may be a
+// parameter of the helper: the literal is then looked up in the caller and the
+// stored value rendered in the caller's context.
+func forwardField(base ssa.Value, field int, d int) (string, bool) {
+	frame := len(substStack)
+	v := base
+	for hop := 0; hop < 8; hop++ {
+		switch b := v.(type) {
+		case *ssa.UnOp:
+			if b.Op != token.MUL {
+				return "", false
+			}
+			v = b.X
+		case *ssa.Parameter:
+			if frame == 0 {
+				return "", false
+			}
+			a, ok := substVals[frame-1][b]
+			if !ok {
+				return "", false
+			}
+			v = a
+			frame--
+		case *ssa.Alloc:
+			if b.Heap || b.Referrers() == nil {
+				return "", false
+			}
+			// a spilled parameter (value receiver whose fields are addressed)
+			var whole []ssa.Value
+			var stored []ssa.Value
+			for _, ref := range *b.Referrers() {
+				switch x := ref.(type) {
+				case *ssa.Store:
+					if x.Addr == b {
+						whole = append(whole, x.Val)
+					}
+				case *ssa.FieldAddr:
+					if x.Referrers() == nil {
+						continue
+					}
+					for _, rr := range *x.Referrers() {
+						if st, ok := rr.(*ssa.Store); ok && st.Addr == x {
+							if x.Field == field {
+								stored = append(stored, st.Val)
+							}
+						} else if _, isLoad := rr.(*ssa.UnOp); !isLoad {
+							// the field's address goes somewhere else
+							if x.Field == field {
+								return "", false
+							}
+						}
+					}
+				}
+			}
+			if len(whole) == 1 && len(stored) == 0 {
+				v = whole[0]
+				continue
+			}
+			if len(whole) != 0 || len(stored) != 1 {
+				return "", false
+			}
+			st, ok := deref(b.Type()).Underlying().(*types.Struct)
+			if !ok || KnownType(deref(b.Type())) {
+				return "", false
+			}
+			_ = st
+			// render in the frame the literal lives in
+			saveS, saveV := substStack, substVals
+			substStack, substVals = substStack[:frame], substVals[:frame]
+			t := render(stored[0], d+1, map[ssa.Value]bool{})
+			substStack, substVals = saveS, saveV
+			return t, true
+		default:
+			return "", false
+		}
+	}
+	return "", false
+}
 
 // SubstDepth is the number of active substitution frames.
 func SubstDepth() int { return len(substStack) }
@@ -235,9 +327,19 @@ func render(v ssa.Value, d int, onstack map[ssa.Value]bool) string {
 		return allocName(x)
 	case *ssa.FieldAddr:
 		st := deref(x.X.Type()).Underlying().(*types.Struct)
+		if !KnownType(deref(x.X.Type())) {
+			if t, ok := forwardField(x.X, x.Field, d); ok {
+				return t
+			}
+		}
 		return r(x.X) + "." + st.Field(x.Field).Name()
 	case *ssa.Field:
 		st := x.X.Type().Underlying().(*types.Struct)
+		if !KnownType(x.X.Type()) {
+			if t, ok := forwardField(x.X, x.Field, d); ok {
+				return t
+			}
+		}
 		return r(x.X) + "." + st.Field(x.Field).Name()
 	case *ssa.IndexAddr:
 		return r(x.X) + "[" + idx(x.Index, r) + "]"
@@ -611,6 +713,15 @@ func inlineHelper(c *ssa.Call, idx int) (string, bool) {
 					return "", false
 				}
 				ret = r
+			} else if ex, ok := r.Results[n-1].(*ssa.Extract); ok && ex.Referrers() != nil && len(*ex.Referrers()) == 1 {
+				// return f(...): the error of the last call is handed on untested,
+				// so this return is also the one taken when everything succeeded
+				if _, isCall := ex.Tuple.(*ssa.Call); isCall {
+					if ret != nil {
+						return "", false
+					}
+					ret = r
+				}
 			}
 		}
 	}
